@@ -35,7 +35,7 @@ ASSUMPTIONS = [
     "the multi-process variant uses persistent child interpreters (one per hash seed) that execute a rank's code for a "
     "given script of collective results",
 ]
-TAG_TYPINGS = ("int", "str", "tuple", "frozenset", "cls")
+TAG_TYPINGS = ("int", "str", "tuple", "frozenset", "cls", "mixed", "mixed-int-first")
 
 
 def bounds(tier):
@@ -48,6 +48,12 @@ def retag(prog, typing):
         return prog
 
     def conv(tag):
+        if typing in ("mixed", "mixed-int-first"):
+            # integer and non-integer symbolic tags in one program; the integers lie where the numbering starts (base_tag 42)
+            i = tag - 100
+            if (i % 2 == 1) == (typing == "mixed"):
+                return 42 + i // 2
+            return f"sym{i}"
         if typing == "str":
             return f"tag{tag}"
         if typing == "tuple":
